@@ -113,6 +113,7 @@ CBK = {
     "plain": dict(ecb="plain", ccb="plain"),
     "coro": dict(ecb="coro", ccb="coro"),
     "partial": dict(ecb="partial", ccb="apartial"),
+    "method": dict(ecb="amethod", ccb="method"),
     "slowccb": dict(ecb="plain", ccb="slow", slow_ids=[0, 1]),
     "slowecb": dict(ecb="slow", ccb="coro", slow_ids=[0]),
     "slowecb1": dict(ecb="slow", ccb="plain", slow_ids=[1]),
